@@ -349,7 +349,7 @@ fn run(ctx: &mut Ctx) {
         }
     }
     // generator outputs with >= 10 chambers, in the representation they come in
-    let sets: Vec<SimpleDSet> = ctx.guard(|| DSets::new(2, tier.pick(10, 11)).filter(|d| d.size() >= 10).collect::<Vec<_>>()).unwrap_or_default();
+    let sets: Vec<SimpleDSet> = ctx.supply("DSets::new", || DSets::new(2, tier.pick(10, 11)).filter(|d| d.size() >= 10).collect::<Vec<_>>());
     for ds in sets {
         if !ctx.take() {
             continue;
